@@ -290,7 +290,7 @@ def reg_number(r):
     return r
 
 
-def compare(o, parsed, immw=64, optional=(), dec="llvm"):
+def compare(o, parsed, immw=64, optional=(), decoder="llvm"):
     """AGREE / DISAGREE:<why> / UNKNOWN:<why> between the request o and one parsed disassembly"""
     want = canon_mnemonic(o["n"])
     got = canon_mnemonic(parsed["mnem"])
@@ -349,7 +349,7 @@ def compare(o, parsed, immw=64, optional=(), dec="llvm"):
     elab = [x[1] for x in exp if x[0] == "l"]
     if elab:
         if len(dimm) != 1 or eimm: return "UNKNOWN:branch operand text " + parsed["text"]
-        if dec == "llvm":
+        if decoder == "llvm":
             target = len(o["b"]) + dimm[0]                 # llvm-mc prints the displacement, relative to the end of the instruction
         else:
             w = 64 if o["m"] == 64 else 32                 # objdump prints the absolute target; the bytes are loaded at address 0
